@@ -63,15 +63,14 @@ class ReflectorBackscatter(Substrate):
             print("active model is not yet fully implemented, need modification for the third component")  # !!!
             ReflectorBackscatter.stop_pol2_warning = True
 
-        if self.specular_reflection is None and self.backscattering_coefficient is None:
-            self.specular_reflection = 1
+        specular_reflection = self._specular_reflection_or_default()
 
         spec_refl_coeff = smrt_matrix.zeros((npol, len(mu1)))
-        if isinstance(self.specular_reflection, dict):  # we have a dictionary with polarization
-            spec_refl_coeff[0] = self._get_refl(self.specular_reflection['V'], mu1)
-            spec_refl_coeff[1] = self._get_refl(self.specular_reflection['H'], mu1)
+        if isinstance(specular_reflection, dict):  # we have a dictionary with polarization
+            spec_refl_coeff[0] = self._get_refl(specular_reflection['V'], mu1)
+            spec_refl_coeff[1] = self._get_refl(specular_reflection['H'], mu1)
         else:  # we have a scalar, both polarization are the same
-            spec_refl_coeff[0] = spec_refl_coeff[1] = self._get_refl(self.specular_reflection, mu1)
+            spec_refl_coeff[0] = spec_refl_coeff[1] = self._get_refl(specular_reflection, mu1)
 
         return spec_refl_coeff
 
@@ -106,21 +105,26 @@ class ReflectorBackscatter(Substrate):
 
     def emissivity_matrix(self, frequency, eps_1, mu1, npol):
 
-        if self.specular_reflection is None and self.backscattering_coefficient is None:
-            self.specular_reflection = 1
+        specular_reflection = self._specular_reflection_or_default()
 
         if npol > 2 and not hasattr(self, "stop_pol2_warning"):
             print("active model is not yet fully implemented, need modification for the third component")  # !!!
             self.stop_pol2_warning = True
 
         emissivity = smrt_matrix.zeros((npol, len(mu1)))
-        if isinstance(self.specular_reflection, dict):  # we have a dictionary with polarization
-            emissivity[0] = 1 - self._get_refl(self.specular_reflection['V'], mu1)
-            emissivity[1] = 1 - self._get_refl(self.specular_reflection['H'], mu1)
+        if isinstance(specular_reflection, dict):  # we have a dictionary with polarization
+            emissivity[0] = 1 - self._get_refl(specular_reflection['V'], mu1)
+            emissivity[1] = 1 - self._get_refl(specular_reflection['H'], mu1)
         else:  # we have a scalar, both polarization are the same
-            emissivity[0] = emissivity[1] = 1 - self._get_refl(self.specular_reflection, mu1)
+            emissivity[0] = emissivity[1] = 1 - self._get_refl(specular_reflection, mu1)
 
         return emissivity
+
+    def _specular_reflection_or_default(self):
+        # default: perfect reflector. The default is not stored, the object given by the user is left untouched.
+        if self.specular_reflection is None and self.backscattering_coefficient is None:
+            return 1
+        return self.specular_reflection
 
     def _get_refl(self, specular_reflection, mu1):
         if callable(specular_reflection):  # we have a function, call it and see what we get
